@@ -44,6 +44,41 @@ func runC15(c *Check) {
 		c.undecided("C15-R1", "anchor:UnitTypes", "", "UnitTypes literal not found")
 		return
 	}
+	// resolveLit: a composite literal, directly or as the initialiser of the package-level
+	// variable the expression names (tables built from named parts)
+	resolveLit := func(e ast.Expr) *ast.CompositeLit {
+		for i := 0; i < 3 && e != nil; i++ {
+			switch x := e.(type) {
+			case *ast.CompositeLit:
+				return x
+			case *ast.UnaryExpr:
+				e = x.X // &T{…}
+			case *ast.Ident:
+				var next ast.Expr
+				for _, f := range pk.Syntax {
+					for _, d := range f.Decls {
+						gd, ok := d.(*ast.GenDecl)
+						if !ok {
+							continue
+						}
+						for _, sp := range gd.Specs {
+							if vs, ok := sp.(*ast.ValueSpec); ok {
+								for k, nm := range vs.Names {
+									if nm.Name == x.Name && pk.TypesInfo.Defs[nm] == pk.TypesInfo.Uses[x] && k < len(vs.Values) {
+										next = vs.Values[k]
+									}
+								}
+							}
+						}
+					}
+				}
+				e = next
+			default:
+				return nil
+			}
+		}
+		return nil
+	}
 	evalFloat := func(e ast.Expr) (float64, bool) {
 		tv, ok := pk.TypesInfo.Types[e]
 		if !ok || tv.Value == nil {
@@ -53,8 +88,8 @@ func runC15(c *Check) {
 		return f, true
 	}
 	parseUnit := func(e ast.Expr) (unitDef, bool) {
-		cl, ok := e.(*ast.CompositeLit)
-		if !ok {
+		cl := resolveLit(e)
+		if cl == nil {
 			return unitDef{}, false
 		}
 		u := unitDef{pos: cl.Pos()}
@@ -79,7 +114,7 @@ func runC15(c *Check) {
 			return u, false
 		}
 		u.name, u.factor = n, f
-		if al, ok := get(1, "aliases").(*ast.CompositeLit); ok {
+		if al := resolveLit(get(1, "aliases")); al != nil {
 			for _, a := range al.Elts {
 				if s, ok := litString(a); ok {
 					u.aliases = append(u.aliases, s)
@@ -94,8 +129,8 @@ func runC15(c *Check) {
 	}
 	var fams []family
 	for _, fe := range lit.Elts {
-		fl, ok := fe.(*ast.CompositeLit)
-		if !ok {
+		fl := resolveLit(fe)
+		if fl == nil {
 			continue
 		}
 		var fam family
@@ -106,7 +141,7 @@ func runC15(c *Check) {
 			}
 			switch exprStr(p.Fset, kv.Key) {
 			case "Units":
-				if ul, ok := kv.Value.(*ast.CompositeLit); ok {
+				if ul := resolveLit(kv.Value); ul != nil {
 					for _, ue := range ul.Elts {
 						if u, ok := parseUnit(ue); ok {
 							fam.units = append(fam.units, u)
